@@ -440,6 +440,7 @@ class Interp:
                 raise PyRaise("AssertionError", ast.unparse(st.test), s.site)
             if t is None:
                 s.assumptions.append((s.site, ast.unparse(st.test)))
+                s._assume(st.test, env)
         elif isinstance(st, ast.Try):
             try:
                 s.block(st.body, env)
@@ -479,6 +480,20 @@ class Interp:
             env.set(st.name, Closure(st, env))
         else:
             raise Undecided(f"statement {type(st).__name__}")
+
+    def _assume(s, test, env):
+        """record `a <= b` / `a < b` facts of the analysed code's own (undecidable) guards for later slice checks."""
+        if isinstance(test, ast.Compare) and len(test.ops) == 1:
+            try:
+                l, r = s.ev(test.left, env), s.ev(test.comparators[0], env)
+            except Exception:
+                return
+            if is_num(l) and is_num(r):
+                op = test.ops[0]
+                if isinstance(op, (ast.LtE, ast.Lt)):
+                    nf.ST.le_facts.add((repr(D(l)), repr(D(r))))
+                elif isinstance(op, (ast.GtE, ast.Gt)):
+                    nf.ST.le_facts.add((repr(D(r)), repr(D(l))))
 
     def assign(s, t, v, env):
         if isinstance(t, ast.Name):
